@@ -11,9 +11,11 @@ dep:<signer>.<sh>:<k>                           deploy contract k = `CheckWitnes
 app:<signer>.<sh>:<k>:<gp>:<payer>              APPCALL contract k
 eip:<e>:<to>:<amt>:<gpGwei>                     EIP-155 transfer of <amt> gwei from Ethereum account e to account <to>
 <payer> = `-` (the signer pays) | <acct>.<sh> (a second signature set; that account pays)
+<acct>.<sh> may be followed by `.<sn>`: the number of signatures the set carries, m ≤ sn ≤ n (default m; only the first m are
+          ever verified, so it changes nothing on either node)
 <sh>    = c canonical script | a alternative encoding of a key | p PUSHDATA1 pushes | u unsorted keys | n key count as bytes
 ```
-Accounts 0…7 (3 = Ethereum-type key) start with 1000 ONT and 1000 ONG, Ethereum accounts e0, e1 with 1000 ONG.  A signature
+Accounts 0…8 (3 = Ethereum-type key; 4 = 2-of-3, 5 = 2-of-2, 8 = 2-of-4 multi-signature) start with 1000 ONT and 1000 ONG, Ethereum accounts e0, e1 with 1000 ONG.  A signature
 set of account `i` gives the signer address `[i]` on the validating node; on the syncing node it gives `[i]` iff the
 script is canonical and the key is not Ethereum-type (C17), otherwise an address nobody owns.  `.sound`: both nodes `[i]`.
 
@@ -41,7 +43,7 @@ structure DTx where
 inductive Variant | asShipped | sound
   deriving DecidableEq
 
-def nAcct : Nat := 8
+def nAcct : Nat := 9
 def govId : Nat := 99
 def minTxGas : Nat := 20000
 
@@ -171,14 +173,22 @@ def initNode : Node Bytes := ⟨initStore, [], [], 0⟩
 
 /-! ### parsing -/
 
+/-- `(m, n)` of an account's signature script -/
+def mnOf (i : Nat) : Nat × Nat := if i == 4 then (2, 3) else if i == 5 then (2, 2) else if i == 8 then (2, 4) else (1, 1)
+
 def parseSigner (s : String) : Option (Nat × String) :=
-  match s.splitOn "." with
-  | [i, sh] =>
+  let base (i sh : String) : Option (Nat × String) :=
     match i.toNat? with
     | some n =>
       -- `a` needs a key with a second accepted encoding (not Ed25519 / Ethereum-type), `u`/`n` a multi-signature account
-      if n < nAcct ∧ (sh == "c" ∨ sh == "p" ∨ (sh == "a" ∧ n != 1 ∧ n != 3) ∨ ((sh == "u" ∨ sh == "n") ∧ (n == 4 ∨ n == 5))) then some (n, sh) else none
+      if n < nAcct ∧ (sh == "c" ∨ sh == "p" ∨ (sh == "a" ∧ n != 1 ∧ n != 3) ∨ ((sh == "u" ∨ sh == "n") ∧ (n == 4 ∨ n == 5 ∨ n == 8))) then some (n, sh) else none
     | none => none
+  match s.splitOn "." with
+  | [i, sh] => base i sh
+  | [i, sh, sn] =>
+    match base i sh, sn.toNat? with
+    | some (n, sh), some k => if (mnOf n).1 ≤ k ∧ k ≤ (mnOf n).2 then some (n, sh) else none
+    | _, _ => none
   | _ => none
 
 def parsePayer (signer : Nat) (s : String) : Option (Option (Nat × String)) :=
